@@ -297,3 +297,15 @@ package annotations
 //@   at call Get#2 assert increment: $arg1 == ingtypes.BackBackendServerSlotsInc
 //@   at call Get#3 assert min-free:  $arg1 == ingtypes.BackSlotsMinFree
 //@ end
+
+// C09 — auth-url svc://ns/name: the backend of a service is used only if the
+// service lives in the namespace of the resource that declared the annotation,
+// unless cross-namespace-services is allowed (or the value comes from the
+// global config).  A backend that another namespace's ingress already built is
+// otherwise found by name without any check.
+//@ func (*updater).setAuthExternal#ns
+//@   props C09
+//@   requires args: auth != nil && url != nil && config != nil && c.options != nil && c.options.DynamicConfig != nil
+//@   assume-pre AcquireAuthBackendName RemoveAuthBackendExcept
+//@   at call FindBackend#1 assert own-ns: url.Source == nil || $arg1 == url.Source.Namespace || c.options.DynamicConfig.CrossNamespaceServices
+//@ end
